@@ -117,6 +117,29 @@ func iterLoops(g *core.XG, n *core.Node) []core.LoopAt {
 	return out
 }
 
+// loopCollectionSym: like loopCollection, as a symbolic value (nil when not recognisable).
+func (e *Env) loopCollectionSym(g *core.XG, la core.LoopAt) *core.Sym {
+	for _, in := range la.L.Header.Instrs {
+		if nx, ok := in.(*ssa.Next); ok {
+			if rg, ok := nx.Iter.(*ssa.Range); ok {
+				return e.symbolizer().InCtx(la.At.Ctx, rg.X)
+			}
+		}
+	}
+	if _, iff := core.HeaderTest(la.L); iff != nil {
+		if bo, ok := iff.Cond.(*ssa.BinOp); ok {
+			for _, v := range []ssa.Value{bo.Y, bo.X} {
+				if c, ok := v.(*ssa.Call); ok {
+					if bi, ok := c.Call.Value.(*ssa.Builtin); ok && bi.Name() == "len" {
+						return e.symbolizer().InCtx(la.At.Ctx, c.Call.Args[0])
+					}
+				}
+			}
+		}
+	}
+	return nil
+}
+
 // loopCollection renders the collection a loop iterates over (the ranged map / channel, or the slice whose
 // length bounds the index), in the loop's context; "" when not recognisable.
 func (e *Env) loopCollection(g *core.XG, la core.LoopAt) string {
